@@ -102,3 +102,92 @@ def make_proto(rx_seq=0, tx_seq=0):
 def evs(log, start=0) -> str:
     part = log[start:]
     return ",".join(part) if part else "."
+
+
+# ---- independent (bellows-free) ASH encoder / decoder used by the simulated NCP and the oracles ----
+def _lfsr(n):
+    out, r = [], 0x42
+    for _ in range(n):
+        out.append(r)
+        r = (r >> 1) ^ 0xB8 if r & 1 else r >> 1
+    return out
+
+
+RAND = _lfsr(256)
+RESERVED = {0x7E, 0x7D, 0x11, 0x13, 0x18, 0x1A}
+
+
+def crc16(data: bytes) -> int:
+    c = 0xFFFF
+    for b in data:
+        c ^= b << 8
+        for _ in range(8):
+            c = ((c << 1) ^ 0x1021) & 0xFFFF if c & 0x8000 else (c << 1) & 0xFFFF
+    return c
+
+
+def spec_stuff(raw: bytes) -> bytes:
+    out = bytearray()
+    for c in raw:
+        if c in RESERVED:
+            out += bytes([0x7D, c ^ 0x20])
+        else:
+            out.append(c)
+    return bytes(out)
+
+
+def spec_wire(kind, *, frm=0, retx=0, ack=0, payload=b"", code=0x0B) -> bytes:
+    """kind in D A N R K E -> stuffed bytes with the closing flag"""
+    if kind == "D":
+        body = bytes([frm << 4 | retx << 3 | ack]) + bytes(x ^ y for x, y in zip(payload, RAND))
+    elif kind == "A":
+        body = bytes([0x80 | ack])
+    elif kind == "N":
+        body = bytes([0xA0 | ack])
+    elif kind == "R":
+        body = b"\xc0"
+    elif kind == "K":
+        body = bytes([0xC1, 2, code])
+    elif kind == "E":
+        body = bytes([0xC2, 2, code])
+    else:
+        raise ValueError(kind)
+    c = crc16(body)
+    return spec_stuff(body + bytes([c >> 8, c & 0xFF])) + b"\x7e"
+
+
+def spec_decode(b: bytes):
+    """stuffed wire bytes (optional CANCEL prefix, closing FLAG) -> tuple or None when invalid"""
+    if b[:1] == b"\x1a":
+        b = b[1:]
+    if not b or b[-1] != 0x7E:
+        return None
+    raw, esc = bytearray(), False
+    for c in b[:-1]:
+        if esc:
+            if (c ^ 0x20) not in RESERVED:
+                return None
+            raw.append(c ^ 0x20)
+            esc = False
+        elif c == 0x7D:
+            esc = True
+        elif c in RESERVED:
+            return None
+        else:
+            raw.append(c)
+    if len(raw) < 3 or crc16(bytes(raw[:-2])) != (raw[-2] << 8 | raw[-1]):
+        return None
+    c0, data = raw[0], bytes(raw[1:-2])
+    if c0 < 0x80:
+        return ("D", c0 >> 4 & 7, c0 >> 3 & 1, c0 & 7, bytes(x ^ y for x, y in zip(data, RAND)))
+    if c0 < 0xA0:
+        return ("A", c0 & 7)
+    if c0 < 0xC0:
+        return ("N", c0 & 7)
+    if c0 == 0xC0:
+        return ("R",)
+    if c0 == 0xC1 and len(data) == 2:
+        return ("K", data[1])
+    if c0 == 0xC2 and len(data) == 2:
+        return ("E", data[1])
+    return None
